@@ -138,6 +138,8 @@ def check_no_filter_state(prog, chk, rule="R14.2"):
                     ok = chain[0] == "context"
                     chk.ob(rule, f"{m.short}|{A.keytext(m.node, c)}", ok, where(m, c), detail=f"mutation of self.{'.'.join(chain)}",
                            message=f"{m.short} mutates self.{'.'.join(chain)}, state that is not reset per call")
+    from .c08 import check_memo_decorators
+    n += check_memo_decorators(prog, chk, rule, only_modules=("ufo2ft.filters",))
     chk.minimum(rule, 5) if rule != "R14.2" else None
     return n
 
@@ -631,6 +633,8 @@ def r146(prog, chk):
 
 
 MUTANTS = [
+    M("component-location memo moved to an lru_cache on the filter method (seeded C14f)", "ufo2ft/filters/base.py", "BaseIFilter.glyphSourceLocations",
+      "<decorate>", "functools.lru_cache(maxsize=None)", rule="R14.2"),
     M("flatten verdict assigned per component (seeded C14b)", "ufo2ft/filters/flattenComponents.py", "_flattenGlyphComponents",
       "if flattened_tuples[0] != (comp.baseGlyph, comp.transformation):\n    flattened = True", "flattened = flattened_tuples[0] != (comp.baseGlyph, comp.transformation)", rule="R14.4c"),
     M("interpolatable flatten verdict of the last master only (fixed 9c7be88)", "ufo2ft/filters/flattenComponents.py", "FlattenComponentsIFilter.filter",
